@@ -370,7 +370,7 @@ def replay(path):
     rep = json.load(open(path))
     prop = rep["property"]
     load_contracts(prop)
-    numeric = isinstance(rep.get("point"), dict) and rep["point"] and all(isinstance(v, (int, float)) for v in rep["point"].values()) and rep.get("kind") != "ground"
+    numeric = isinstance(rep.get("point"), dict) and rep["point"] and all(isinstance(v, (int, float)) for v in rep["point"].values()) and rep.get("kind") not in ("ground", "exception")
     if not numeric:
         # ground / E2 / E3 obligations, or no failing input: re-generate the obligation from the current tree
         cname = rep.get("contract") or rep["obligation"].split("/")[1].split("[")[0]
